@@ -95,7 +95,7 @@ def family_K(n):
     out.append(("K/spins", HDR + "@constexpr\ndef f(x):\n    while True:\n        pass\ndb.Setting = f(%d)\n" % n))
     out.append(("K/spins_for", HDR + "@constexpr\ndef f(x):\n    t = 0\n    for i in range(10**12):\n        t += i\n    return t\ndb.Setting = f(%d)\n" % n))
     out.append(("K/sleeps_long", HDR + "@constexpr\ndef f(x):\n    import time\n    time.sleep(5)\n    return x\ndb.Setting = f(%d)\n" % n))
-    out.append(("K/sleeps_short", HDR + "@constexpr\ndef f(x):\n    import time\n    time.sleep(0.3)\n    return x + 1\ndb.Setting = f(%d)\n" % n))
+    out.append(("K/sleeps_short", HDR + "@constexpr\ndef f(x):\n    import time\n    time.sleep(0.04)\n    return x + 1\ndb.Setting = f(%d)\n" % n))
     out.append(("K/reads_stdin", HDR + "@constexpr\ndef f(x):\n    return len(input()) + x\ndb.Setting = f(%d)\n" % n))
     out.append(("K/reads_stdin_all", HDR + "@constexpr\ndef f(x):\n    import sys\n    return len(sys.stdin.read()) + x\ndb.Setting = f(%d)\n" % n))
     out.append(("K/recursive_body", HDR + "@constexpr\ndef f(x):\n    return f(x + 1)\ndb.Setting = f(%d)\n" % n))
